@@ -26,8 +26,10 @@ from ..astutil import text, short, endswith, calls_in, walk_no_nested, names_loa
 from ..dataflow import DefUse
 from .. import events as E
 from .. import types as T
-from ._h_A import (FactReach, nodes_of_stmts, nodes_for, kwarg, is_const, stmts_in, attr_sites,
-                   MUTATING)
+from ._h_A import (FactReach, Facts, nodes_of_stmts, nodes_for, kwarg, is_const, stmts_in,
+                   attr_sites, obj_sites, MUTATING, inliner, expander, returns_of, bind_call,
+                   call_arg, strip_wrappers, real_loops, Owners, atom_of, followed, enclosing_loops,
+                   innermost_loop)
 
 EXPLANATION = (
   "Decides that stored actions are self-contained and replayed the way they were applied. R1: "
@@ -56,91 +58,139 @@ def check(run, repo, tier):
 
 
 # ------------------------------------------------------------------------------------------
-def _single_return(fn):
-  rets = stmts_in(fn.node.body, ast.Return)
-  return rets
+def _rets(fn):
+  """[(Return stmt, resolved value)] of the value-returning returns, one entry per statement."""
+  out, seen = [], set()
+  for (n, s, v) in returns_of(fn):
+    if v is not None and id(s) not in seen:
+      seen.add(id(s))
+      out.append((s, v))
+  return out
 
 
-def _walker_call(fn, e):
-  """If e is convert_recursive_in_action(<conv>, <data>) return (conv, data)."""
-  if isinstance(e, ast.Call) and dotted(e.func) == "convert_recursive_in_action" and \
-      len(e.args) == 2 and not e.keywords:
-    return e.args[0], e.args[1]
+def _walker_call(w, e):
+  """If e is a call of convert_recursive_in_action return its (converter, data) arguments."""
+  if isinstance(e, ast.Call) and endswith(dotted(e.func), "convert_recursive_in_action"):
+    m = bind_call(e, w.repo.func("actions.convert_recursive_in_action"))
+    if m is not None:
+      return m.get("converter"), m.get("data")
   return None
+
+
+def _seq_parts(e):
+  """A list-valued expression as parts: ("elt", e) single elements, ("spread", e) sub-sequences.
+  [a] + list(x), [a, *x], [a] + x all read [elt a, spread x]."""
+  if isinstance(e, (ast.List, ast.Tuple)):
+    out = []
+    for x in e.elts:
+      if isinstance(x, ast.Starred):
+        out.append(("spread", strip_wrappers(x.value)))
+      else:
+        out.append(("elt", x))
+    return out
+  if isinstance(e, ast.BinOp) and isinstance(e.op, ast.Add):
+    return _seq_parts(e.left) + _seq_parts(e.right)
+  e2 = strip_wrappers(e, names=("list", "tuple"))
+  if e2 is not e:
+    return _seq_parts(e2) if isinstance(e2, (ast.List, ast.Tuple, ast.BinOp)) else [("spread", e2)]
+  return [("spread", e)]
+
+
+def _is_type_name(e, p):
+  """<p>.__class__.__name__ or type(<p>).__name__"""
+  if not (isinstance(e, ast.Attribute) and e.attr == "__name__"):
+    return False
+  c = e.value
+  if isinstance(c, ast.Attribute) and c.attr == "__class__":
+    return text(c.value) == p
+  return isinstance(c, ast.Call) and dotted(c.func) == "type" and len(c.args) == 1 and \
+      text(c.args[0]) == p
 
 
 def r1_codec(run, w):
   R1 = run.rule("C03-R1", "get_action_repr and action_from_repr are an inverse pair over the same "
                 "value walker with encode_object / decode_object", floor=6)
-  enc = w.fn("actions.encode_objects")
-  dec = w.fn("actions.decode_objects")
+  inl = inliner(w)
+  enc = inl.fn("actions.encode_objects")
+  dec = inl.fn("actions.decode_objects")
   # encode_objects(data) = convert_recursive_in_action(objtypes.encode_object, data)
-  er = _single_return(enc)
-  ew = _walker_call(enc, er[0].value) if len(er) == 1 else None
-  ok = ew is not None and endswith(dotted(ew[0]), "objtypes.encode_object") and \
-      text(ew[1]) == enc.fi.params()[0]
-  run.ob(R1, enc.qualname, short(er[0]) if er else "return ?", "cell values of an emitted action "
-         "are encoded by encode_object through the cell-value walker", ok, fi=enc.fi)
+  er = _rets(enc)
+  for (r, v) in er:
+    ew = _walker_call(w, v)
+    ok = ew is not None and ew[0] is not None and endswith(dotted(ew[0]), "encode_object") and \
+        ew[1] is not None and text(ew[1]) == enc.fi.params()[0]
+    run.ob(R1, enc.qualname, "return convert_recursive_in_action(encode_object, data)", "cell "
+           "values of an emitted action are encoded by encode_object through the cell-value walker",
+           ok, fi=enc.fi, node=r, witness=None if ok else "returns `%s`" % short(v))
+  if not er:
+    raise AnalysisError("actions.encode_objects: no value is returned")
   # decode_objects(data, decoder=objtypes.decode_object) = convert_recursive_in_action(decoder, data)
-  dr = _single_return(dec)
-  dw = _walker_call(dec, dr[0].value) if len(dr) == 1 else None
+  dr = _rets(dec)
   dps = dec.fi.params()
-  conv_ok = False
-  if dw is not None:
-    if endswith(dotted(dw[0]), "objtypes.decode_object"):
-      conv_ok = True
-    elif isinstance(dw[0], ast.Name) and dw[0].id in dps:
-      i = dps.index(dw[0].id)
-      defaults = dec.node.args.defaults
-      off = len(dps) - len(defaults)
-      conv_ok = i >= off and endswith(dotted(defaults[i - off]), "objtypes.decode_object") and \
-          not DefUse(dec).rebinders(dw[0].id)
-  ok = dw is not None and conv_ok and text(dw[1]) == dps[0]
-  run.ob(R1, dec.qualname, short(dr[0]) if dr else "return ?", "cell values of a replayed action "
-         "are decoded by decode_object (the default decoder) through the same walker", ok,
-         fi=dec.fi)
+  for (r, v) in dr:
+    dw = _walker_call(w, v)
+    conv_ok = False
+    if dw is not None and dw[0] is not None:
+      if endswith(dotted(dw[0]), "decode_object"):
+        conv_ok = True
+      elif isinstance(dw[0], ast.Name) and dw[0].id in dps:
+        i = dps.index(dw[0].id)
+        defaults = dec.node.args.defaults
+        off = len(dps) - len(defaults)
+        conv_ok = i >= off and endswith(dotted(defaults[i - off]), "decode_object") and \
+            not DefUse(dec).rebinders(dw[0].id)
+    ok = dw is not None and conv_ok and dw[1] is not None and text(dw[1]) == dps[0]
+    run.ob(R1, dec.qualname, "return convert_recursive_in_action(decoder, data)", "cell values of "
+           "a replayed action are decoded by decode_object (the default decoder) through the same "
+           "walker", ok, fi=dec.fi, node=r, witness=None if ok else "returns `%s`" % short(v))
+  if not dr:
+    raise AnalysisError("actions.decode_objects: no value is returned")
   # get_action_repr: [type name] + list(encode_objects(action))
-  gr = w.fn("actions.get_action_repr")
+  gr = inl.fn("actions.get_action_repr")
   p = gr.fi.params()[0]
-  rr = _single_return(gr)
-  v = rr[0].value if len(rr) == 1 else None
-  ok = isinstance(v, ast.BinOp) and isinstance(v.op, ast.Add) and \
-      isinstance(v.left, ast.List) and len(v.left.elts) == 1 and \
-      text(v.left.elts[0]) == "%s.__class__.__name__" % p and \
-      isinstance(v.right, ast.Call) and dotted(v.right.func) == "list" and \
-      len(v.right.args) == 1 and isinstance(v.right.args[0], ast.Call) and \
-      dotted(v.right.args[0].func) == "encode_objects" and \
-      [text(a) for a in v.right.args[0].args] == [p]
-  run.ob(R1, gr.qualname, short(v) if v is not None else "return ?",
-         "the serialised form is [type name] followed by every field of the action, encoded", ok,
-         fi=gr.fi)
+  rr = _rets(gr)
+  if not rr:
+    raise AnalysisError("actions.get_action_repr: no value is returned")
+  for (r, v) in rr:
+    parts = _seq_parts(v)
+    if any(k == "spread" and isinstance(x, ast.Name) for (k, x) in parts):
+      raise AnalysisError("actions.get_action_repr: the list is built step by step (`%s`); its "
+                          "shape cannot be followed" % short(v))
+    ok = len(parts) == 2 and parts[0][0] == "elt" and _is_type_name(parts[0][1], p) and \
+        parts[1][0] == "spread" and isinstance(parts[1][1], ast.Call) and \
+        endswith(dotted(parts[1][1].func), "encode_objects") and \
+        (bind_call(parts[1][1], enc.fi) or {}).get(enc.fi.params()[0]) is not None and \
+        text(bind_call(parts[1][1], enc.fi)[enc.fi.params()[0]]) == p
+    run.ob(R1, gr.qualname, "[type name] + list(encode_objects(action))",
+           "the serialised form is [type name] followed by every field of the action, encoded", ok,
+           fi=gr.fi, node=r, witness=None if ok else "returns `%s`" % short(v))
   # action_from_repr: decode_objects(action_types[repr[0]](*repr[1:])) with the default decoder
-  fr = w.fn("actions.action_from_repr")
+  fr = inl.fn("actions.action_from_repr")
   p = fr.fi.params()[0]
-  tvars = {}
-  for s in stmts_in(fr.node.body, ast.Assign):
-    if len(s.targets) == 1 and isinstance(s.targets[0], ast.Name):
-      val = s.value
-      key = None
-      if isinstance(val, ast.Call) and endswith(dotted(val.func), "action_types.get") and val.args:
-        key = val.args[0]
-      elif isinstance(val, ast.Subscript) and endswith(dotted(val.value), "action_types"):
-        key = val.slice
-      if key is not None:
-        tvars[s.targets[0].id] = key
-  rets = [r for r in _single_return(fr) if r.value is not None]
-  ok_all = bool(rets)
-  for r in rets:
-    v = r.value
-    ok = isinstance(v, ast.Call) and dotted(v.func) == "decode_objects" and len(v.args) == 1 and \
-        not v.keywords and isinstance(v.args[0], ast.Call) and \
-        isinstance(v.args[0].func, ast.Name) and v.args[0].func.id in tvars and \
-        text(tvars[v.args[0].func.id]) == "%s[0]" % p and len(v.args[0].args) == 1 and \
-        isinstance(v.args[0].args[0], ast.Starred) and \
-        text(v.args[0].args[0].value) == "%s[1:]" % p
-    ok_all = ok_all and ok
-    run.ob(R1, fr.qualname, short(r), "the action is rebuilt from the type named first and all "
-           "remaining elements, decoded with the default decoder", ok, fi=fr.fi, node=r)
+  rets = _rets(fr)
+  if not rets:
+    raise AnalysisError("actions.action_from_repr: no value is returned")
+  for (r, v) in rets:
+    ok = False
+    wit = "returns `%s`" % short(v)
+    if isinstance(v, ast.Call) and endswith(dotted(v.func), "decode_objects"):
+      m = bind_call(v, dec.fi)
+      inner = m.get(dps[0]) if m else None
+      dflt = m is not None and all(
+        m.get(q) is None or endswith(dotted(m.get(q)), "decode_object") for q in dps[1:])
+      if isinstance(inner, ast.Call) and dflt:
+        f = inner.func
+        key = None
+        if isinstance(f, ast.Call) and endswith(dotted(f.func), "action_types.get") and f.args:
+          key = f.args[0]
+        elif isinstance(f, ast.Subscript) and endswith(dotted(f.value), "action_types"):
+          key = f.slice
+        ok = key is not None and text(key) == "%s[0]" % p and len(inner.args) == 1 and \
+            not inner.keywords and isinstance(inner.args[0], ast.Starred) and \
+            text(inner.args[0].value) == "%s[1:]" % p
+    run.ob(R1, fr.qualname, "return decode_objects(action_types[repr[0]](*repr[1:]))", "the action "
+           "is rebuilt from the type named first and all remaining elements, decoded with the "
+           "default decoder", ok, fi=fr.fi, node=r, witness=None if ok else wit)
   # action_types is the registry of the namedtuple action types
   mod = w.repo.module("actions")
   at = mod.assigns.get("action_types")
@@ -149,54 +199,103 @@ def r1_codec(run, w):
          "type names are resolved through the registry of action types", ok, nontrivial=False)
   # the walker converts exactly the cell values of value-carrying actions and recurses otherwise
   wk = w.fn("actions.convert_recursive_in_action")
-  inner = w.repo.funcs.get("actions.convert_recursive_in_action.inner")
-  ok = inner is not None and any(
-    isinstance(c, ast.Call) and dotted(c.func) == "convert_action_values" and
-    len(c.args) == 2 and text(c.args[0]) == wk.fi.params()[0]
-    for c in calls_in(inner.node.body)) and any(
-    isinstance(c, ast.Call) and dotted(c.func) == "convert_recursive_helper" and
-    len(c.args) == 2 and text(c.args[0]) == "inner" for c in calls_in(inner.node.body))
+  conv_p = wk.fi.params()[0]
+  inners = [fi for q, fi in w.repo.funcs.items()
+            if fi.parent is not None and fi.parent.qualname == wk.qualname]
+  ok = False
+  for fi in inners:
+    cs = calls_in(fi.node.body)
+    a = any(endswith(dotted(c.func), "convert_action_values") and
+            text(call_arg(c, w.repo.func("actions.convert_action_values"), "converter")
+                 or ast.Constant(value=None)) == conv_p for c in cs)
+    b = any(endswith(dotted(c.func), "convert_recursive_helper") and
+            text(call_arg(c, w.repo.func("actions.convert_recursive_helper"), "converter")
+                 or ast.Constant(value=None)) == fi.name for c in cs)
+    ok = ok or (a and b)
   run.ob(R1, wk.qualname, "inner: tuple -> convert_action_values(converter, .) else recurse",
          "encode and decode visit the same positions: cell values of actions, nothing else", ok,
          fi=wk.fi)
 
 
 # ------------------------------------------------------------------------------------------
+def _decoded_elem(e, var):
+  """Is e `action_from_repr(<var>)`?"""
+  return isinstance(e, ast.Call) and endswith(dotted(e.func), "action_from_repr") and \
+      len(e.args) + len(e.keywords) == 1 and \
+      text((e.args + [k.value for k in e.keywords])[0]) == var
+
+
+def _iter_source(e, p):
+  """How a loop iterable relates to the parameter p holding the stored actions:
+  "raw" (p itself, every element, forward), "decoded" (every element of p, forward, passed through
+  action_from_repr), None otherwise."""
+  e = strip_wrappers(e, names=("list", "tuple", "iter"))
+  if isinstance(e, ast.Name) and e.id == p:
+    return "raw"
+  if isinstance(e, (ast.ListComp, ast.GeneratorExp)) and len(e.generators) == 1:
+    g = e.generators[0]
+    if not g.ifs and isinstance(g.target, ast.Name) and \
+        _iter_source(g.iter, p) == "raw" and _decoded_elem(e.elt, g.target.id):
+      return "decoded"
+  if isinstance(e, ast.Call) and dotted(e.func) == "map" and len(e.args) == 2 and \
+      endswith(dotted(e.args[0]), "action_from_repr") and _iter_source(e.args[1], p) == "raw":
+    return "decoded"
+  return None
+
+
 def r2_forward_replay(run, w):
   R2 = run.rule("C03-R2", "ApplyDocActions: every element, forward order, action_from_repr, "
                 "gateway, unconditionally", floor=4)
-  fn = w.fn("useractions.UserActions.ApplyDocActions")
+  fn = inliner(w).fn("useractions.UserActions.ApplyDocActions")
+  ex = expander(fn)
   p = fn.fi.params()[1]
   cfg = fn.cfg
-  loops = [s for s in fn.node.body if isinstance(s, ast.For)]
-  ok = len(loops) == 1 and isinstance(loops[0].iter, ast.Name) and loops[0].iter.id == p and \
-      isinstance(loops[0].target, ast.Name) and not loops[0].orelse
-  run.ob(R2, fn.qualname, "for %s in %s" % (text(loops[0].target) if loops else "?",
-                                            text(loops[0].iter) if loops else "?"),
+  gw_all = [(n, c) for (n, c, nm) in fn.calls() if E.is_strict_gateway_call(c, nm, fn)]
+  if not gw_all:
+    raise AnalysisError("ApplyDocActions: no gateway call")
+  loops = []
+  for lp in real_loops(fn.node.body, ast.For):
+    body = nodes_of_stmts(cfg, lp.body)
+    if any(n.id in body for (n, c) in gw_all):
+      loops.append(lp)
+  ok = len(loops) == 1 and not loops[0].orelse and isinstance(loops[0].target, ast.Name) and \
+      _iter_source(ex.expand(loops[0].iter), p) is not None
+  run.ob(R2, fn.qualname, "for <action> in <the stored actions>",
          "the stored actions are replayed in the order they were recorded, all of them (no "
-         "reversal, slice or filter)", ok, fi=fn.fi, node=loops[0] if loops else None)
+         "reversal, slice or filter)", ok, fi=fn.fi, node=loops[0] if loops else None,
+         witness=None if ok or not loops else "iterates `%s`" % short(ex.expand(loops[0].iter)))
   if not ok:
     return
   lp = loops[0]
+  kind = _iter_source(ex.expand(lp.iter), p)
   var = lp.target.id
   head = nodes_for(cfg, lp)
   body = nodes_of_stmts(cfg, lp.body)
+  # the loop runs on every call (an early exit is fine only when there is nothing to replay)
+  fr0 = Facts(cfg, {p})
+  seen0 = fr0.run([(cfg.entry.id, {p: True})], stop=head)
+  run.ob(R2, fn.qualname, "the replay loop is always reached", "no path through ApplyDocActions "
+         "skips the replay of a non-empty list", cfg.exit.id not in seen0, fi=fn.fi, node=lp,
+         nontrivial=False)
   gws = set()
-  for (n, c, nm) in fn.calls():
-    if n.id in body and E.is_strict_gateway_call(c, nm, fn) and len(c.args) == 1:
-      a = c.args[0]
-      if isinstance(a, ast.Call) and endswith(dotted(a.func), "actions.action_from_repr",
-                                              "action_from_repr") and \
-          len(a.args) == 1 and not a.keywords and text(a.args[0]) == var:
-        gws.add(n.id)
+  for (n, c) in gw_all:
+    if n.id not in body:
+      continue
+    a = call_arg(c, w.repo.func("useractions.UserActions._do_doc_action"),
+                 w.repo.func("useractions.UserActions._do_doc_action").params()[1])
+    if a is None:
+      continue
+    a = ex.expand(a)
+    if (kind == "raw" and _decoded_elem(a, var)) or (kind == "decoded" and text(a) == var):
+      gws.add(n.id)
   first = {m for h in head for m in cfg.normal_succ(h) if m in body}
   ok = bool(gws) and not (cfg.reach(first, removed=gws) & (head | {cfg.exit.id}))
-  run.ob(R2, fn.qualname, "self._do_doc_action(actions.action_from_repr(%s)) on every iteration" % var,
+  run.ob(R2, fn.qualname, "self._do_doc_action(actions.action_from_repr(<action>)) on every iteration",
          "each stored action is decoded by the inverse of get_action_repr and goes through the "
          "gateway, whatever it is", ok, fi=fn.fi, node=lp,
          witness=None if ok else "an iteration can finish without applying its action")
   reb = DefUse(fn).rebinders(var) - head
-  run.ob(R2, fn.qualname, "%s is not rebound in the loop" % var,
+  run.ob(R2, fn.qualname, "the loop variable is not rebound in the loop",
          "the action applied is the stored one", not (reb & body), fi=fn.fi, nontrivial=False)
   # nothing else in the function changes the document
   others = [c for (n, c, nm) in fn.calls() if n.id not in gws and
@@ -207,11 +306,24 @@ def r2_forward_replay(run, w):
 
 
 # ------------------------------------------------------------------------------------------
+def _pmap_lookup(e, p_node):
+  """Is e (locals already expanded) a non-consuming lookup of this node's exempt rows:
+  <x>._prevent_recompute_map.get(node[, d]) / <x>._prevent_recompute_map[node]?  -> method name"""
+  if isinstance(e, ast.Call) and isinstance(e.func, ast.Attribute) and \
+      endswith(dotted(e.func.value), PMAP) and e.args and text(e.args[0]) == p_node:
+    return e.func.attr
+  if isinstance(e, ast.Subscript) and endswith(dotted(e.value), PMAP) and text(e.slice) == p_node:
+    return "__getitem__"
+  return None
+
+
 def r3_exemptions(run, w):
   R3 = run.rule("C03-R3", "explicit (replayed) values of trigger-formula columns are exempt from "
                 "recalculation for the whole user action: written by prevent_recalc only, cleared "
                 "at the start of each user action only, read-only in _recompute_step, subtracted "
                 "before the scan; DocActions.BulkUpdateRecord exempts what it writes", floor=12)
+  inl = inliner(w)
+  own = Owners(w)
   # ---- (a) ownership of the map: every syntactic use, classified
   allowed = {
     ("engine.Engine.__init__", "rebind"): "initial empty map",
@@ -219,9 +331,10 @@ def r3_exemptions(run, w):
     ("engine.Engine.apply_user_actions", "clear"): "start of each user action",
     (STEP, "get"): "read of this node's exempt rows",
   }
+  named = {q for (q, k) in allowed}
   n_sites = 0
   for fi in w.repo.all_functions():
-    for site in attr_sites(fi, PMAP):
+    for site in obj_sites(fi, PMAP):
       n_sites += 1
       kind = site[0]
       if kind == "call":
@@ -236,7 +349,10 @@ def r3_exemptions(run, w):
       elif kind == "call" and what not in MUTATING:
         raise AnalysisError("%s: unknown method %s on %s" % (fi.qualname, what, PMAP))
       else:
-        ok = (fi.qualname, what) in allowed
+        owners = own.of(fi, named)
+        ok = all((q, what) in allowed for q in owners)
+        if ok:
+          followed(inl, fi, owners)
       run.ob(R3, fi.qualname, "%s.%s" % (PMAP, what) if kind == "call" else "%s of %s" % (what, PMAP),
              "the exemption map is written by prevent_recalc, cleared by apply_user_actions, and "
              "only read elsewhere (a consuming read such as pop() would drop the exemption at the "
@@ -244,115 +360,163 @@ def r3_exemptions(run, w):
   if n_sites < 4:
     raise AnalysisError("%s: fewer than 4 uses found" % PMAP)
   # ---- (b) _recompute_step: the exempt set is read, never mutated, and subtracted before the scan
-  fn = w.fn(STEP)
+  from .c06 import Scan
+  sc = Scan(w)
+  fn = sc.fn
+  ex = expander(fn)
   cfg = fn.cfg
   p_node = fn.fi.params()[1]
   reads = []
   for n in cfg.nodes:
     if n.kind == "stmt" and isinstance(n.stmt, ast.Assign) and len(n.stmt.targets) == 1 and \
-        isinstance(n.stmt.targets[0], ast.Name) and isinstance(n.stmt.value, ast.Call) and \
-        isinstance(n.stmt.value.func, ast.Attribute) and \
-        endswith(fn.name(n.stmt.value.func.value), "self.%s" % PMAP):
+        isinstance(n.stmt.targets[0], ast.Name) and \
+        isinstance(n.stmt.value, (ast.Call, ast.Subscript)) and \
+        endswith(dotted(ex.expand(n.stmt.value.func.value if isinstance(n.stmt.value, ast.Call)
+                                  and isinstance(n.stmt.value.func, ast.Attribute)
+                                  else getattr(n.stmt.value, "value", None))), PMAP):
       reads.append(n)     # whatever the method: (a) has judged it; here we only need the variable
   if len(reads) != 1:
     raise AnalysisError("%s: expected one `<v> = self.%s.<lookup>(node...)`" % (STEP, PMAP))
   rd = reads[0]
-  ex = rd.stmt.targets[0].id
-  rc = rd.stmt.value
-  run.ob(R3, fn.qualname, short(rd.stmt), "the exemption looked up is this node's",
-         len(rc.args) >= 1 and text(rc.args[0]) == p_node, fi=fn.fi, node=rd.stmt,
+  exv = rd.stmt.targets[0].id
+  rc = ex.expand(rd.stmt.value)
+  run.ob(R3, fn.qualname, "<exempt> = self.%s.<lookup>(node)" % PMAP,
+         "the exemption looked up is this node's",
+         (isinstance(rc, ast.Call) and len(rc.args) >= 1 and text(rc.args[0]) == p_node) or
+         (isinstance(rc, ast.Subscript) and text(rc.slice) == p_node), fi=fn.fi, node=rd.stmt,
          nontrivial=False)
   du = DefUse(fn)
+  if du.rebinders(exv) - {rd.id}:
+    raise AnalysisError("%s: the exempt-rows local is bound more than once" % STEP)
+  names = {exv} | {nm for nm, v in ex.vals.items() if isinstance(v, ast.Name) and v.id == exv}
   bad = []
   for x in walk_body(fn):
     if isinstance(x, ast.Call) and isinstance(x.func, ast.Attribute) and \
-        isinstance(x.func.value, ast.Name) and x.func.value.id == ex and x.func.attr in MUTATING:
+        isinstance(x.func.value, ast.Name) and x.func.value.id in names and x.func.attr in MUTATING:
       bad.append(x)
-    if isinstance(x, ast.AugAssign) and isinstance(x.target, ast.Name) and x.target.id == ex:
+    if isinstance(x, ast.AugAssign) and isinstance(x.target, ast.Name) and x.target.id in names:
       bad.append(x)
     if isinstance(x, (ast.Assign, ast.Delete)):
       for t in (x.targets):
-        if isinstance(t, ast.Subscript) and isinstance(t.value, ast.Name) and t.value.id == ex:
+        if isinstance(t, ast.Subscript) and isinstance(t.value, ast.Name) and t.value.id in names:
           bad.append(x)
     if isinstance(x, ast.Call) and not (isinstance(x.func, ast.Attribute) and
                                         isinstance(x.func.value, ast.Name) and
-                                        x.func.value.id == ex):
-      if any(isinstance(a, ast.Name) and a.id == ex for a in x.args) and \
+                                        x.func.value.id in names):
+      if any(isinstance(a, ast.Name) and a.id in names
+             for a in list(x.args) + [k.value for k in x.keywords]) and \
           dotted(x.func) not in ("len", "bool", "sorted", "set", "frozenset", "list"):
         raise AnalysisError("%s: exempt set passed to %s; cannot tell whether it is mutated"
                             % (STEP, short(x.func)))
-  run.ob(R3, fn.qualname, "%s is only read" % ex, "the set of exempt rows stays intact for every "
-         "later visit of the node in this user action", not bad, fi=fn.fi,
+  run.ob(R3, fn.qualname, "the exempt rows are only read", "the set of exempt rows stays intact "
+         "for every later visit of the node in this user action", not bad, fi=fn.fi,
          node=bad[0] if bad else rd.stmt,
          witness=None if not bad else "mutated by `%s`" % short(bad[0]))
   # the scan loop's dirty rows have the exempt rows removed whenever there are any
-  from .c06 import Scan
-  sc = Scan(w)
   head = sc.head(cfg)
+  dv = sc.dirty_var
+  def is_exempt(e):
+    return isinstance(e, ast.Name) and e.id in names
   subs = set()
   for n in cfg.nodes:
-    if n.kind == "stmt" and isinstance(n.stmt, ast.Assign) and len(n.stmt.targets) == 1 and \
-        text(n.stmt.targets[0]) == sc.dirty_var and isinstance(n.stmt.value, ast.BinOp) and \
-        isinstance(n.stmt.value.op, ast.Sub) and text(n.stmt.value.left) == sc.dirty_var and \
-        text(n.stmt.value.right) == ex:
-      subs.add(n.id)
-    if n.kind == "stmt" and isinstance(n.stmt, ast.Assign) and len(n.stmt.targets) == 1 and \
-        text(n.stmt.targets[0]) == sc.dirty_var and isinstance(n.stmt.value, ast.Call) and \
-        isinstance(n.stmt.value.func, ast.Attribute) and \
-        n.stmt.value.func.attr == "difference" and text(n.stmt.value.func.value) == sc.dirty_var \
-        and [text(a) for a in n.stmt.value.args] == [ex]:
-      subs.add(n.id)
-  fr = FactReach(cfg, {ex})
-  starts = [(m, {ex: True}) for m in cfg.normal_succ(rd.id)]
+    if not (n.kind == "stmt" and isinstance(n.stmt, (ast.Assign, ast.AugAssign))):
+      continue
+    s_ = n.stmt
+    if isinstance(s_, ast.Assign):
+      if not (len(s_.targets) == 1 and text(s_.targets[0]) == dv):
+        continue
+      v = s_.value
+      # <dirty> = <dirty> - <exempt>   |   <dirty>.difference(<exempt>)
+      if isinstance(v, ast.BinOp) and isinstance(v.op, ast.Sub) and text(v.left) == dv and \
+          is_exempt(v.right):
+        subs.add(n.id)
+      elif isinstance(v, ast.Call) and isinstance(v.func, ast.Attribute) and \
+          v.func.attr == "difference" and text(v.func.value) == dv and \
+          len(v.args) == 1 and is_exempt(v.args[0]):
+        subs.add(n.id)
+      else:
+        # <dirty> = <ctor>(r for r in <dirty> if r not in <exempt>)
+        c = strip_wrappers(v, names=("SortedSet", "set", "sorted", "list", "frozenset"))
+        if isinstance(c, (ast.GeneratorExp, ast.ListComp, ast.SetComp)) and \
+            len(c.generators) == 1 and text(c.generators[0].iter) == dv and \
+            isinstance(c.generators[0].target, ast.Name) and \
+            text(c.elt) == c.generators[0].target.id and len(c.generators[0].ifs) == 1:
+          k, pol = atom_of(c.generators[0].ifs[0])
+          if pol is False and any(k == "%s in %s" % (c.generators[0].target.id, nm)
+                                  for nm in names):
+            subs.add(n.id)
+  fr = Facts(cfg, set(names), ex=None)
+  starts = [(m, {nm: True for nm in names}) for m in cfg.normal_succ(rd.id)]
   seen = fr.run(starts, stop=subs)
   ok = bool(subs) and head not in seen and cfg.dominated_by(head, {rd.id})
   # and the subtracted value is not overwritten again before the scan
-  reb = du.rebinders(sc.dirty_var)
+  reb = du.rebinders(dv)
   for s_ in subs:
     between = cfg.reach_after({s_}, removed={head}) & cfg.reach({head}, removed={s_}, forward=False)
     if between & (reb - subs):
       ok = False
-  run.ob(R3, fn.qualname, "if %s: %s = %s - %s  before the scan" % (ex, sc.dirty_var, sc.dirty_var, ex),
+  run.ob(R3, fn.qualname, "if <exempt>: <dirty> = <dirty> - <exempt>  before the scan",
          "exempt rows are neither evaluated nor reported as missing dependencies, in evaluating "
          "and non-evaluating visits alike", ok, fi=fn.fi,
          witness=None if ok else "a path with a non-empty exemption reaches the scan without "
          "subtracting it")
   # ---- (c) prevent_recalc: adds with should_prevent, removes otherwise, on this node's set
-  pr = w.fn("engine.Engine.prevent_recalc")
+  pr = inl.fn("engine.Engine.prevent_recalc")
+  pex = expander(pr)
   pps = pr.fi.params()
   if len(pps) != 4:
     raise AnalysisError("prevent_recalc: signature changed")
-  sets = [s for s in stmts_in(pr.node.body, ast.Assign)
-          if isinstance(s.value, ast.Call) and endswith(pr.name(s.value), "self.%s.setdefault" % PMAP)]
-  ok = len(sets) == 1 and isinstance(sets[0].targets[0], ast.Name) and \
-      text(sets[0].value.args[0]) == pps[1]
-  run.ob(R3, pr.qualname, short(sets[0]) if sets else "setdefault ?", "exemptions are kept per node",
-         ok, fi=pr.fi, nontrivial=False)
-  if ok:
-    sv = sets[0].targets[0].id
-    pcfg = pr.cfg
-    upd = pr.nodes_calling(lambda c, nm, f: nm == "%s.update" % sv and len(c.args) == 1 and
-                           text(c.args[0]) == pps[2])
-    rem = pr.nodes_calling(lambda c, nm, f: nm in ("%s.difference_update" % sv,) and
-                           len(c.args) == 1 and text(c.args[0]) == pps[2])
-    frp = FactReach(pcfg, {pps[3]})
-    t = frp.run([(pcfg.entry.id, {pps[3]: True})], stop=upd)
-    f = frp.run([(pcfg.entry.id, {pps[3]: False})], stop=rem)
-    ok = bool(upd) and pcfg.exit.id not in t and not (set(t) & rem) and \
-        bool(rem) and pcfg.exit.id not in f and not (set(f) & upd)
-    run.ob(R3, pr.qualname, "should_prevent: %s.update(%s) / else: difference_update" % (sv, pps[2]),
-           "asking for an exemption adds exactly the given rows; lifting removes them", ok,
-           fi=pr.fi)
+  pcfg = pr.cfg
+  def is_set_of_node(e):
+    """<x>._prevent_recompute_map.setdefault(node, <empty set>) with locals expanded"""
+    e = pex.expand(e)
+    return isinstance(e, ast.Call) and isinstance(e.func, ast.Attribute) and \
+        e.func.attr == "setdefault" and endswith(dotted(e.func.value), "self.%s" % PMAP) and \
+        len(e.args) == 2 and text(e.args[0]) == pps[1]
+  def is_rows(e):
+    e = strip_wrappers(pex.expand(e), names=("set", "list", "tuple", "frozenset"))
+    return text(e) == pps[2]
+  upd, rem, sets_seen = set(), set(), 0
+  for n in pcfg.nodes:
+    for c in calls_in(n.exprs):
+      if isinstance(c.func, ast.Attribute) and is_set_of_node(c.func.value) and len(c.args) == 1 \
+          and is_rows(c.args[0]):
+        if c.func.attr == "update":
+          upd.add(n.id)
+        elif c.func.attr == "difference_update":
+          rem.add(n.id)
+    if n.kind == "stmt" and isinstance(n.stmt, ast.AugAssign) and is_set_of_node(n.stmt.target) \
+        and is_rows(n.stmt.value):
+      if isinstance(n.stmt.op, ast.BitOr):
+        upd.add(n.id)
+      elif isinstance(n.stmt.op, ast.Sub):
+        rem.add(n.id)
+    for c in calls_in(n.exprs):
+      if is_set_of_node(c):
+        sets_seen += 1
+  run.ob(R3, pr.qualname, "self.%s.setdefault(node, set())" % PMAP, "exemptions are kept per node",
+         sets_seen >= 1, fi=pr.fi, nontrivial=False)
+  frp = Facts(pcfg, {pps[3]}, ex=pex)
+  t = frp.run([(pcfg.entry.id, {pps[3]: True})], stop=upd)
+  f = frp.run([(pcfg.entry.id, {pps[3]: False})], stop=rem)
+  ok = bool(upd) and pcfg.exit.id not in t and not (set(t) & rem) and \
+      bool(rem) and pcfg.exit.id not in f and not (set(f) & upd)
+  run.ob(R3, pr.qualname, "should_prevent: <set>.update(row_ids) / else: difference_update",
+         "asking for an exemption adds exactly the given rows; lifting removes them", ok,
+         fi=pr.fi)
   # ---- (d) cleared at the start of each user action, inside the loop, before it is applied
-  au = w.fn("engine.Engine.apply_user_actions")
+  au = inl.fn("engine.Engine.apply_user_actions")
   acfg = au.cfg
   clears = au.nodes_calling(lambda c, nm, f: endswith(nm, "self.%s.clear" % PMAP))
   applies = au.nodes_calling(lambda c, nm, f: endswith(nm, "self._apply_one_user_action"))
   if not applies:
     raise AnalysisError("apply_user_actions: _apply_one_user_action call not found")
   p_actions = au.fi.params()[1]
-  loops = [s for s in stmts_in(au.node.body, ast.For)
-           if isinstance(s.iter, ast.Name) and s.iter.id == p_actions]
+  loops = []
+  for a in applies:
+    lp = innermost_loop(au.node, acfg.nodes[a].stmt)
+    if lp is not None and not any(lp is x for x in loops):
+      loops.append(lp)
   if len(loops) != 1:
     raise AnalysisError("apply_user_actions: loop over the user actions not found")
   lh = nodes_for(acfg, loops[0])
@@ -371,17 +535,18 @@ def r3_exemptions(run, w):
          node=loops[0], witness=None if ok else "the map is cleared after the user action was "
          "applied and before formulas are recalculated")
   # ---- (e) DocActions.BulkUpdateRecord exempts every non-formula column it writes
-  bu = w.fn("docactions.DocActions.BulkUpdateRecord")
+  bu = inl.fn("docactions.DocActions.BulkUpdateRecord")
+  bex = expander(bu)
   bcfg = bu.cfg
   bps = bu.fi.params()
+  prf = w.repo.func("engine.Engine.prevent_recalc")
   writes = [(n, c) for (n, c, nm) in bu.calls() if E.is_column_mutation(c, nm, bu)
             and c.func.attr == "set"]
   if not writes:
     raise AnalysisError("DocActions.BulkUpdateRecord: column write not found")
   for (wn, wc) in writes:
     colv = text(wc.func.value)
-    chain = enclosing_chain(bu.node, wn.stmt)
-    col_loops = [x for (x, fld) in chain if isinstance(x, ast.For)]
+    col_loops = [x for x in enclosing_loops(bu.node, wn.stmt) if isinstance(x, ast.For)]
     if not col_loops:
       raise AnalysisError("DocActions.BulkUpdateRecord: column write is not inside a loop")
     outer = col_loops[0]
@@ -390,47 +555,52 @@ def r3_exemptions(run, w):
     prev = set()
     for (n, c, nm) in bu.calls():
       if n.id in ob_ and E.is_engine_call("prevent_recalc")(c, nm, bu):
-        a_node = kwarg(c, "node", 0)
-        a_rows = kwarg(c, "row_ids", 1)
-        a_flag = kwarg(c, "should_prevent", 2)
-        if a_node is not None and text(a_node) == "%s.node" % colv and a_rows is not None and \
-            text(a_rows) == bps[2] and a_flag is not None and is_const(a_flag, True):
+        m = bind_call(c, prf) or {}
+        a_node, a_rows, a_flag = m.get(pps[1]), m.get(pps[2]), m.get(pps[3])
+        if a_node is not None and bex.norm(a_node) in ("%s.node" % colv, "%s.node" % bex.norm(wc.func.value)) \
+            and a_rows is not None and bex.norm(a_rows) == bps[2] and a_flag is not None and \
+            is_const(bex.expand(a_flag), True):
           prev.add(n.id)
     # under "the column is not a formula column", every path from the write to the end of the
     # per-column iteration passes the exemption
     key = "%s.is_formula()" % colv
-    frb = FactReach(bcfg, set(), call_keys={key})
+    frb = Facts(bcfg, {key}, ex=bex)
     seen = frb.run([(m, {key: False}) for m in bcfg.normal_succ(wn.id)], stop=prev)
     # leave the inner row loop first: consider only arrivals at the outer loop head / exit
     ok = bool(prev) and not (set(seen) & (oh | {bcfg.exit.id}))
-    run.ob(R3, bu.qualname, "%s -> self._engine.prevent_recalc(%s.node, %s, should_prevent=True)"
-           % (short(wc, 40), colv, bps[2]),
+    run.ob(R3, bu.qualname, "<col>.set(row, value) -> self._engine.prevent_recalc(<col>.node, "
+           "row_ids, should_prevent=True)",
            "every explicit value written into a data column (a replayed trigger-formula result "
            "included) is exempt from recalculation for the same rows", ok, fi=bu.fi, node=wc,
            witness=None if ok else "a non-formula column can be written without being exempted")
     # the rows written are the rows exempted
     rows_src = None
-    for (x, fld) in chain:
-      if isinstance(x, ast.For) and x is not outer:
-        it = x.iter
-        if isinstance(it, ast.Call) and dotted(it.func) == "zip" and it.args:
-          rows_src = text(it.args[0])
-        elif isinstance(it, ast.Name):
-          rows_src = it.id
-    run.ob(R3, bu.qualname, "rows written = rows exempted (%s)" % bps[2],
+    for x in col_loops[1:]:
+      it = bex.expand(x.iter)
+      if isinstance(it, ast.Call) and dotted(it.func) == "zip" and it.args:
+        rows_src = text(it.args[0])
+      elif isinstance(it, ast.Name):
+        rows_src = it.id
+    if rows_src is None:
+      raise AnalysisError("DocActions.BulkUpdateRecord: the rows written cannot be followed")
+    run.ob(R3, bu.qualname, "rows written = rows exempted",
            "the exemption covers exactly the cells that received explicit values",
            rows_src == bps[2], fi=bu.fi, node=wc, nontrivial=False)
   # ---- (f) exemptions are lifted only by user-level code
   for fi in w.repo.all_functions():
     f2 = w.fn_of(fi)
+    fex = None
     for c in calls_in(fi.node.body):
       if isinstance(c.func, ast.Attribute) and c.func.attr == "prevent_recalc":
-        flag = kwarg(c, "should_prevent", 2)
+        flag = call_arg(c, prf, pps[3])
         if flag is None:
           raise AnalysisError("%s: prevent_recalc without a should_prevent argument" % fi.qualname)
+        fex = fex or expander(f2)
+        flag = fex.expand(flag)
         if is_const(flag, True):
           continue
-        user_level = fi.cls is not None and fi.cls.qualname == "useractions.UserActions"
+        ua = {f3.qualname for f3 in w.repo.cls("useractions.UserActions").methods.values()}
+        user_level = all(q in ua for q in own.of(fi, ua))
         run.ob(R3, fi.qualname, short(c), "an exemption is lifted only by user-level code (which "
                "a replay through ApplyDocActions never runs)", user_level and is_const(flag, False),
                fi=fi, node=c, nontrivial=False)
